@@ -401,7 +401,7 @@ func yamlShape(n *yaml3.Node) string {
 
 func C15(e *core.Env) {
 	res := e.Res
-	res.Rule = "cases = (profile, rewriting): profiles with 2-4 validations over the three levels built from the C01 formula generator (every connective, nested / atLeast / atMost, all atom kinds, sequence / alternative / inverse paths, messages with placeholders), each rewritten k times (quick 6, thorough 30) by composing: a random permutation of the entries of EVERY mapping, of every level list and of every and/or operand list, consistent renaming of prefixes to fresh names, use of alias prefixes bound to the same namespace, three quoting styles where the tag is preserved, flow vs block style per sub-tree, indentation 2/3/4, comments, blank lines, document marker; every variant is validated on the same graphs and must give the same conforms flag and the same set of (severity, validation, focus, message); the IRI expander is compared with the model on the compact IRIs used; " +
+	res.Rule = "cases = (profile, rewriting): profiles with 2-4 validations over the three levels built from the C01 formula generator (every connective, nested / atLeast / atMost, all atom kinds, sequence / alternative / inverse paths, messages with placeholders), each rewritten k times (quick 6, thorough 30) by composing: a random permutation of the entries of EVERY mapping, of every level list and of every and/or operand list, consistent renaming of prefixes to fresh names, use of alias prefixes bound to the same namespace, three quoting styles where the tag is preserved, flow vs block style per sub-tree, indentation 2/3/4, comments, blank lines, document marker; every variant is validated on the same graphs and must give the same conforms flag and the same set of (severity, validation, focus, message); the IRI expander is compared with the model on the compact IRIs used; the repository's 29 integration fixtures and 3 hand-written profiles (two expression keywords in one body, five-operand or / and lists with multi-branch operands over two prefixes) are rewritten the same way (3 / 10 variants quick, 12 / 40 thorough); " +
 		"non-trivial = the original profile reports at least one result on some graph; distinct by variant text"
 	rc := config.DefaultReportConfiguration()
 	k := e.Pick(6, 30)
@@ -613,6 +613,7 @@ func C15(e *core.Env) {
 		}
 	}
 	c15Fixtures(e, rc, summary, defaults)
+	c15HandWritten(e, rc, summary, defaults, mkGraph)
 	// the IRI expander against the model, on the compact IRIs the profiles use and on renamed / aliased ones
 	ctxPairs := [][2]string{{"ex", ExNS}, {"zz", "http://example.org/zz#"}, {"al12ex", ExNS}, {"ex-r31", ExNS}}
 	ctxSx := []sx.V{}
@@ -697,12 +698,30 @@ func aliasPrefixes(r *rand.Rand, t *onode) {
 	builtin := map[string]string{"apiContract": "http://a.ml/vocabularies/apiContract#", "core": "http://a.ml/vocabularies/core#", "shacl": "http://www.w3.org/ns/shacl#",
 		"apiExt": "http://a.ml/vocabularies/api-extension#", "shapes": "http://a.ml/vocabularies/shapes#", "raml-shapes": "http://a.ml/vocabularies/shapes#",
 		"doc": "http://a.ml/vocabularies/document#", "security": "http://a.ml/vocabularies/security#", "data": "http://a.ml/vocabularies/data#", "xsd": "http://www.w3.org/2001/XMLSchema#"}
+	// the profile's own prefixes too (they overlay the built-in ones); alias names sort before, between and after
+	// the usual names, so that a textual ordering of rules by prefix changes with the spelling
+	for i, k := range t.keys {
+		if k == "prefixes" && t.vals[i].kind == "map" {
+			for j, pk := range t.vals[i].keys {
+				if t.vals[i].vals[j].kind == "str" && regexp.MustCompile(`^[A-Za-z][A-Za-z0-9\-]*$`).MatchString(pk) {
+					builtin[pk] = t.vals[i].vals[j].s
+				}
+			}
+		}
+	}
 	alias := map[string]string{}
+	names := []string{}
 	for p := range builtin {
-		alias[p] = "al" + strings.ReplaceAll(p, "-", "") + "x"
+		names = append(names, p)
+	}
+	sort.Strings(names)
+	alts := []string{}
+	for _, p := range names {
+		alias[p] = []string{"al", "mm", "zy"}[r.Intn(3)] + strings.ReplaceAll(p, "-", "") + "x"
+		alts = append(alts, regexp.QuoteMeta(p))
 	}
 	used := map[string]bool{}
-	re := regexp.MustCompile(`(^|[\s(|/{])(` + "apiContract|core|shacl|apiExt|shapes|raml-shapes|doc|security|data|xsd" + `)\.([A-Za-z])`)
+	re := regexp.MustCompile(`(^|[\s(|/{])(` + strings.Join(alts, "|") + `)\.([A-Za-z])`)
 	rewrite := func(s string) string {
 		return re.ReplaceAllStringFunc(s, func(m string) string {
 			sub := re.FindStringSubmatch(m)
@@ -823,7 +842,6 @@ func graphSx(norm any) (sx.V, bool) {
 }
 
 func c15Fixtures(e *core.Env, rc config.ReportConfiguration, summary func(string) (string, int), defaults []sx.V) {
-	res := e.Res
 	dir := e.Repo + "/test/data/integration"
 	for i := 1; i <= 29; i++ {
 		base := fmt.Sprintf("%s/profile%d/", dir, i)
@@ -831,20 +849,33 @@ func c15Fixtures(e *core.Env, rc config.ReportConfiguration, summary func(string
 		if err != nil {
 			continue
 		}
-		var doc yaml3.Node
-		if yaml3.Unmarshal(ptxt, &doc) != nil || len(doc.Content) == 0 {
-			continue
-		}
-		tree := fromYaml(&doc, "")
-		if !tree.valid() || tree.kind != "map" {
-			res.Count("fixture-skipped")
-			continue
-		}
 		datas := []string{}
+		dnames := []string{}
 		for _, dn := range []string{"positive.data.jsonld", "negative.data.jsonld"} {
 			if d, err := os.ReadFile(base + dn); err == nil {
 				datas = append(datas, string(d))
+				dnames = append(dnames, dn)
 			}
+		}
+		c15Text(e, rc, summary, defaults, fmt.Sprintf("fixture profile%d", i), fmt.Sprintf("test/data/integration/profile%d", i), "fixture", string(ptxt), datas, dnames, e.Pick(3, 12))
+	}
+}
+
+// c15Text: one profile given as YAML text (a repository fixture or a hand-written profile), validated on the given
+// documents, compared with the Coq model where the model supports every construct, then rewritten n times.
+func c15Text(e *core.Env, rc config.ReportConfiguration, summary func(string) (string, int), defaults []sx.V, label, where, stream string, ptext string, datas []string, dnames []string, n int) {
+	res := e.Res
+	i := label
+	ptxt := []byte(ptext)
+	{
+		var doc yaml3.Node
+		if yaml3.Unmarshal(ptxt, &doc) != nil || len(doc.Content) == 0 {
+			return
+		}
+		tree := fromYaml(&doc, "")
+		if !tree.valid() || tree.kind != "map" {
+			res.Count(stream + "-skipped")
+			return
 		}
 		refs := []string{}
 		ok := true
@@ -873,26 +904,26 @@ func c15Fixtures(e *core.Env, rc config.ReportConfiguration, summary func(string
 									got[sevLevel(r.Severity)+"|"+r.Name+"|"+r.Focus] = true
 								}
 							}
-							res.Count("fixture-model-verdicts-compared")
+							res.Count(stream + "-model-verdicts-compared")
 							if strings.Join(items, "\n") != strings.Join(sortedKeys(got), "\n") {
-								res.Violate("model-mismatch", fmt.Sprintf("the Coq model's verdict for fixture profile%d differs from the library's", i),
-									map[string]any{"no_failing_input_found": true, "broken": "correspondence ProfileParser.verdict vs pkg.Validate on a repository fixture",
-										"fixture": fmt.Sprintf("test/data/integration/profile%d", i), "model": items, "impl": sortedKeys(got)})
+								res.Violate("model-mismatch", fmt.Sprintf("the Coq model's verdict for %s differs from the library's", i),
+									map[string]any{"no_failing_input_found": true, "broken": "correspondence ProfileParser.verdict vs pkg.Validate on " + stream + " profile",
+										"profile_from": where, "profile": string(ptxt), "data": core.Trunc(d, 4000), "model": items, "impl": sortedKeys(got)})
 							}
 						} else if derr == nil {
-							res.Count("fixture-model-answer=" + ans.Atom)
+							res.Count(stream + "-model-answer=" + ans.Atom)
 						}
 					} else {
-						res.Count("fixture-graph-outside-model")
+						res.Count(stream + "-graph-outside-model")
 					}
 				}
 			}
 		}
 		if !ok {
-			res.Count("fixture-skipped")
-			continue
+			res.Count(stream + "-skipped")
+			return
 		}
-		for v := 0; v < e.Pick(3, 12); v++ {
+		for v := 0; v < n; v++ {
 			t := tree.clone()
 			aliasPrefixes(e.Rand, t)
 			t.shuffle(e.Rand)
@@ -902,22 +933,25 @@ func c15Fixtures(e *core.Env, rc config.ReportConfiguration, summary func(string
 			variant := b.String()
 			for di, d := range datas {
 				out, err := pkg.ValidateWithConfiguration(variant, d, false, nil, clockA, rc)
-				replay := map[string]any{"fixture": fmt.Sprintf("test/data/integration/profile%d", i), "original_profile": string(ptxt), "rewritten_profile": variant, "data_file": []string{"positive.data.jsonld", "negative.data.jsonld"}[di]}
+				replay := map[string]any{"profile_from": where, "original_profile": string(ptxt), "rewritten_profile": variant, "data_file": dnames[di]}
+				if stream != "fixture" {
+					replay["data"] = d
+				}
 				if err != nil {
 					replay["error"] = core.Trunc(err.Error(), 1000)
-					res.Violate("impl-violates-property", fmt.Sprintf("a rewriting of fixture profile%d that keeps its meaning is rejected: %s", i, core.Trunc(err.Error(), 160)), replay)
+					res.Violate("impl-violates-property", fmt.Sprintf("a rewriting of %s that keeps its meaning is rejected: %s", i, core.Trunc(err.Error(), 160)), replay)
 					break
 				}
 				s, _ := summary(out)
 				if s != refs[di] {
 					replay["original_results"] = refs[di]
 					replay["rewritten_results"] = s
-					res.Violate("impl-violates-property", fmt.Sprintf("a rewriting of fixture profile%d that keeps its meaning changes the verdict", i), replay)
+					res.Violate("impl-violates-property", fmt.Sprintf("a rewriting of %s that keeps its meaning changes the verdict", i), replay)
 					break
 				}
 			}
-			res.Case(fmt.Sprintf("fixture%d|%x", i, hashString(variant)), true)
-			res.Count("fixture-variants")
+			res.Case(fmt.Sprintf("%s|%x", i, hashString(variant)), true)
+			res.Count(stream + "-variants")
 		}
 	}
 }
@@ -952,4 +986,204 @@ func yamlSx(n *yaml3.Node) (sx.V, bool) {
 		return sx.L(items...), true
 	}
 	return sx.V{}, false
+}
+
+// c15Hand: legal but unusual profiles no generator stream produces: bodies holding more than one expression keyword
+// (the parser's fixed priority decides, whatever the key order), wide `or` / `and` lists whose operands have several
+// branches and differ in prefix and in the position of nested constraints (operand sorting), a nested body with two
+// keywords, one property constrained under two spellings of its path.
+var c15Hand = []string{
+	// two keywords in one body
+	`profile: Two keywords
+prefixes:
+  ex: http://example.org/ns#
+  zz: http://example.org/zz#
+violation:
+  - pc-and-not
+  - or-and-and
+warning:
+  - not-and-if
+info:
+  - nested-two
+validations:
+  pc-and-not:
+    targetClass: ex.T
+    message: both written
+    propertyConstraints:
+      ex.a:
+        minCount: 1
+    not:
+      propertyConstraints:
+        ex.a:
+          minCount: 1
+  or-and-and:
+    targetClass: ex.T
+    and:
+      - propertyConstraints:
+          ex.a:
+            minCount: 1
+      - propertyConstraints:
+          zz.b:
+            minCount: 1
+    or:
+      - propertyConstraints:
+          ex.c:
+            minCount: 1
+      - propertyConstraints:
+          zz.b:
+            maxCount: 0
+  not-and-if:
+    targetClass: ex.T
+    not:
+      propertyConstraints:
+        ex.c:
+          minCount: 1
+    if:
+      propertyConstraints:
+        ex.a:
+          minCount: 1
+    then:
+      propertyConstraints:
+        zz.b:
+          minCount: 1
+  nested-two:
+    targetClass: ex.T
+    propertyConstraints:
+      ex.a:
+        nested:
+          propertyConstraints:
+            ex.c:
+              minCount: 1
+          or:
+            - propertyConstraints:
+                zz.b:
+                  minCount: 1
+            - propertyConstraints:
+                ex.a:
+                  minCount: 1
+`,
+	// wide or: five alternatives, several with two branches, two prefixes, nested first / last
+	`profile: Wide or
+prefixes:
+  ex: http://example.org/ns#
+  zz: http://example.org/zz#
+violation:
+  - wide-or
+warning:
+  - wide-or-nested
+validations:
+  wide-or:
+    targetClass: ex.T
+    message: none of five
+    or:
+      - propertyConstraints:
+          zz.b:
+            minCount: 1
+            maxCount: 1
+      - propertyConstraints:
+          ex.a:
+            minCount: 2
+          ex.c:
+            minCount: 1
+      - propertyConstraints:
+          ex.c:
+            minCount: 2
+          zz.b:
+            in: [ lit-b0, lit-b1 ]
+      - propertyConstraints:
+          ex.a:
+            maxCount: 0
+          ex.c:
+            maxCount: 0
+      - propertyConstraints:
+          zz.b:
+            minCount: 2
+          ex.a:
+            minCount: 1
+  wide-or-nested:
+    targetClass: ex.T
+    or:
+      - propertyConstraints:
+          ex.a:
+            nested:
+              propertyConstraints:
+                ex.c:
+                  minCount: 1
+                zz.b:
+                  minCount: 1
+      - propertyConstraints:
+          ex.c:
+            nested:
+              propertyConstraints:
+                ex.a:
+                  minCount: 1
+          zz.b:
+            minCount: 3
+      - propertyConstraints:
+          zz.b:
+            minCount: 1
+          ex.c:
+            minCount: 1
+      - propertyConstraints:
+          ex.a:
+            minCount: 1
+          ex.c:
+            maxCount: 0
+      - propertyConstraints:
+          ex.a:
+            atLeast:
+              count: 2
+              validation:
+                propertyConstraints:
+                  ex.a:
+                    minCount: 1
+`,
+	// wide and of ors (the complement shape)
+	`profile: Wide and
+prefixes:
+  ex: http://example.org/ns#
+  zz: http://example.org/zz#
+violation:
+  - wide-and
+validations:
+  wide-and:
+    targetClass: ex.T
+    and:
+      - or:
+          - propertyConstraints:
+              ex.a:
+                minCount: 1
+          - propertyConstraints:
+              zz.b:
+                minCount: 1
+      - or:
+          - propertyConstraints:
+              ex.c:
+                minCount: 1
+          - propertyConstraints:
+              ex.a:
+                maxCount: 0
+      - or:
+          - propertyConstraints:
+              zz.b:
+                maxCount: 1
+          - propertyConstraints:
+              ex.c:
+                maxCount: 0
+      - not:
+          propertyConstraints:
+            ex.a:
+              minCount: 3
+`,
+}
+
+func c15HandWritten(e *core.Env, rc config.ReportConfiguration, summary func(string) (string, int), defaults []sx.V, mkGraph func(*rand.Rand) Graph) {
+	datas, dnames := []string{}, []string{}
+	for i := 0; i < e.Pick(3, 8); i++ {
+		datas = append(datas, mkGraph(e.Rand).JSONLD())
+		dnames = append(dnames, fmt.Sprintf("generated graph %d", i))
+	}
+	for i, p := range c15Hand {
+		c15Text(e, rc, summary, defaults, fmt.Sprintf("hand-written profile %d", i), "harness/props/c15.go c15Hand", "hand-written", "#%Validation Profile 1.0\n"+p, datas, dnames, e.Pick(10, 40))
+	}
 }
